@@ -122,7 +122,9 @@ def run_t1(modules: list[str], keys: list[str] | None, prop: str, ctx, timeout_m
     reg = load_registry(modules)
     natives = load_natives(modules)
     if keys is None:
-        keys = [k for k, c in reg.contracts.items() if prop in c.properties and not c.trusted]
+        # every contract is verified by the check of its PRIMARY property (the first one it is tagged with); the checks of
+        # the other properties it serves only reference it (evidence: proved_under_other_checks)
+        keys = [k for k, c in reg.contracts.items() if c.properties and c.properties[0] == prop and not c.trusted]
     baseline = set()
     if os.path.exists(BASELINE_PATH):
         baseline = set(json.load(open(BASELINE_PATH)).get("fully_discharged", []))
@@ -131,6 +133,14 @@ def run_t1(modules: list[str], keys: list[str] | None, prop: str, ctx, timeout_m
     mpctx = mp.get_context("spawn")
     with mpctx.Pool(min(ctx.jobs, max(1, len(tasks)))) as pool:
         outs = pool.map(_work, tasks, chunksize=1)
+    # budgets under load: a contract that was fully discharged on the baseline tree and now has UNDECIDED obligations is
+    # verified once more on its own, after the pool has drained, with a 3x budget, before anything is reported
+    for i, o in enumerate(outs):
+        if o["key"] in baseline and not o["error"] and any(x["status"] == UNDECIDED and not x["canary"] for x in o["obligations"]):
+            t = tasks[i]
+            outs[i] = _work((t[0], t[1], t[2], timeout_ms * 3, t[4], 0))
+            outs[i]["cross"] = o["cross"]
+            outs[i]["second_attempt"] = True
     fully = []
     for o in outs:
         key = o["key"]
@@ -189,6 +199,9 @@ def run_t1(modules: list[str], keys: list[str] | None, prop: str, ctx, timeout_m
             res.standins.append(StandIn(contract=f"native monitor of {key}", tier="T3", bound=f"{cr['evaluations']} seeded random inputs satisfying requires", evaluations=cr["evaluations"], distinct_nontrivial=cr["distinct"], samples=cr["samples"], notes="CPython cross-check of the contract and of the encoding"))
             for f in cr["fails"]:
                 res.violations.append(Violation(signature=f"{prop}:T3:{key}:native-monitor", what=f"native contract monitor of {key} failed: {f['observed']}", input={"contract": key, "input_repr": f["input_repr"], "seed": ctx.seed, "n": o["cross"]["evaluations"]}, contract="native monitor", observed=f["observed"], tier="T3"))
+    res.extra["contracts_serving_this_property_verified_by_other_checks"] = sorted(
+        f"{k} (verified by ./check {c.properties[0]})" for k, c in reg.contracts.items() if prop in c.properties[1:] and not c.trusted
+    )
     res.extra["t1_fully_discharged"] = fully
     res.extra["t1_baseline_fully_discharged"] = sorted(baseline & set(keys))
     return res
